@@ -30,6 +30,7 @@ func ruleC15(prog *Program, rep *Report) {
 	ruleTableShape(prog, rep, "oj", "sen", "alt")
 	ruleDispatchArgs(prog, rep, "oj", "sen", "alt")
 	ruleCacheRead(prog, rep)
+	ruleClassEndpoints(prog, rep, "alt", "oj", "sen") // the exported-field test on the first letter of a field name
 	ruleTightAppendTwins(prog, rep, "oj", "sen")
 	rulePkgTwins(prog, rep, "oj", "sen", 40) // sen's writer, field plans and accessors are copies of oj's
 }
